@@ -179,6 +179,10 @@ def to_regex(node: Any, rules: dict[str, Any]) -> Any:
     k = node[0]
     if k == "nt":
         if len(node) > 2:
+            if node[2] != "A" and node[3] != "A":
+                # a message between two external parties: invisible to the fuzzer side, cut out of the grammar when
+                # the spec is loaded (truncate_invisible_packets / slice_parties)
+                return EPS
             return ("sym", (node[2], node[3], node[1]))
         return to_regex(rules[node[1]], rules)
     if k == "seq":
@@ -264,6 +268,10 @@ def protocols(draw: Any) -> dict[str, Any]:
             if s2 != s:
                 msgs.append((s2, r2, t))
                 break
+    invisible = False
+    if n_parties == 3 and draw(st.integers(0, 2)) == 0:
+        # messages between the two external parties (invisible to A: sliced away at load time), often adjacent
+        invisible = True
     if n_parties == 3 and draw(st.integers(0, 2)) == 0:
         # the same sender sends the same message type to two different recipients (named class)
         t = draw(st.sampled_from(types))
@@ -278,6 +286,16 @@ def protocols(draw: Any) -> dict[str, Any]:
     rules.insert(0, ["start", start])
     proto = {"rules": rules, "parties": parties, "types": types}
     _guard_nullable_reps(proto, msgs[0])
+    if invisible:
+        # one to three ADJACENT invisible messages inside a sequence of the start rule, next to visible ones (a
+        # wholly invisible alternative or repetition body is not generated: the documentation only says that the
+        # other parties are excluded, not what an alternative without any remaining message means)
+        proto["types"] = types + ["x1", "x2"]
+        inv = [["nt", "x1", "B", "C"], ["nt", "x2", "C", "B"], ["nt", "x1", "B", "C"]][: draw(st.integers(1, 3))]
+        name, rhs = proto["rules"][0]
+        items = list(rhs[1]) if rhs[0] == "seq" else [rhs]
+        pos = draw(st.integers(0, len(items)))
+        proto["rules"][0] = [name, ["seq", items[:pos] + inv + items[pos:]]]
     return proto
 
 
@@ -381,6 +399,12 @@ def check_case(case: dict[str, Any], ctx: Any = None) -> list[str]:
         return []
     rules = {name: rhs for name, rhs in proto["rules"]}
     regex = to_regex(rules["start"], rules)
+    if not symbols(regex):
+        # every message is exchanged between external parties: nothing of the interaction is visible to the fuzzer
+        # side, the sliced grammar has no start rule - not a protocol spec to forecast on
+        if ctx is not None:
+            ctx.count("spec_without_visible_messages")
+        return []
     forecaster = PacketForecaster(f.grammar)
     depth = case["depth"]
     msgs: list[str] = []
